@@ -18,6 +18,7 @@
       unpipelined machine, which never sees the wrong path.
 -/
 import MajoranaVerif.Proofs.Mvp4Run
+import MajoranaVerif.Proofs.Mvp5Run
 open GoInt Model Model.Mvp4 Model.Seq Proofs.Mvp4
 
 namespace Props.C03
@@ -81,5 +82,135 @@ example : (Model.Mvp4.run exApp exCtx 6000).halt = some .ret ∧
     GoMap.get1 (Model.Mvp4.run exApp exCtx 6000).final.ctx.Registers 1 = 0#32 ∧
     GoMap.get1 (Model.Mvp4.run exApp exCtx 6000).final.ctx.Registers 7 = 1#32 ∧
     (Model.Mvp4.run exApp exCtx 6000).final.ctx.Memory = List.replicate 64 0#8 := by decide
+
+end Props.C03
+
+/-! ## MVP-5 (work package MVP5)
+
+  C03 for MVP-5, proved on the cycle-accurate model `Model.Mvp5` (tied to the Go code cycle-exactly).  MVP-5 adds
+  a branch target buffer: the decode unit stops decoding behind an unconditional jump until the jump is executed
+  (`pendingBranchResolution`); a BTB hit at issue restarts the fetch unit at the PREDICTED target, the execution of
+  the jump restarts it at the REAL target (always — `notifyJumpAddressResolved`), and both tell the fetch unit to
+  clean the decode bus first.  Wrong path = everything fetched behind a taken branch (flushed as in MVP-4) and
+  everything fetched behind a jump, predicted or not (never decoded, cleaned off the decode bus).
+    * `mvp5_in_flight_window_is_sequential`: the decoded instructions in flight, followed — unless the decode unit
+      waits for a jump — by the fetched pcs that will still be decoded and the fetch pc, are consecutive from the
+      architectural pc; `mvp5_jump_is_youngest_decoded`: nothing is decoded behind a jump;
+    * `mvp5_tick_is_zero_or_one_sequential_step`: in every tick the machine performs zero or one step of the
+      unpipelined machine on the architectural state;
+    * `mvp5_jump_restarts_fetch_at_target`: executing a jump restarts the fetch unit at the next ARCHITECTURAL pc
+      whether or not the BTB predicted it, discards the fetched pcs and releases the decode unit;
+    * `mvp5_redirect_flushes_everything_younger`, `mvp5_redirect_restores_relation`: the flush after a redirect;
+    * `mvp5_wrong_path_leaves_no_architectural_trace`: end to end. -/
+
+namespace Props.C03
+
+/-- every tick of MVP-5 is zero or one step of the unpipelined machine (see `Proofs.Mvp5.TickPost5`) -/
+theorem mvp5_tick_is_zero_or_one_sequential_step (app : App) (s s' : Model.Mvp5.State) (a : Arch) (ev : Event)
+    (hR : Proofs.Mvp5.Rel5 app s a) (hnf : NoFwd app) (hok : stepOk app a = true)
+    (h : Model.Mvp5.cycle app s = (s', ev)) : Proofs.Mvp5.TickPost5 app a s' ev :=
+  Proofs.Mvp5.cycle5_sim hR hnf hok h
+
+/-- the decoded instructions in flight (execute unit, execute bus) and — unless the decode unit waits for a jump —
+the pcs the decode unit will still see (none when the fetch unit has been told to clean the bus) and the fetch pc
+are consecutive from the architectural pc -/
+theorem mvp5_in_flight_window_is_sequential (app : App) (s : Model.Mvp5.State) (a : Arch)
+    (hR : Proofs.Mvp5.Rel5 app s a) (hm : s.base.mode = .normal) :
+    Consec a.pc ((Proofs.Mvp5.runners s.base).map (·.pc) ++ Proofs.Mvp5.tailW s) := by
+  have := hR.front; rw [hm] at this; exact this.consec
+
+/-- an unconditional jump is the youngest decoded instruction, and the decode unit waits exactly while one is in
+flight: nothing behind a jump is ever decoded -/
+theorem mvp5_jump_is_youngest_decoded (app : App) (s : Model.Mvp5.State) (a : Arch)
+    (hR : Proofs.Mvp5.Rel5 app s a) (hm : s.base.mode = .normal) :
+    (∀ l x l', Proofs.Mvp5.runners s.base = l ++ x :: l' → Proofs.Mvp5.isJump x = true → l' = [] ∧ s.duPending = true) ∧
+    (s.duPending = true → ∃ l x, Proofs.Mvp5.runners s.base = l ++ [x] ∧ Proofs.Mvp5.isJump x = true) := by
+  have := hR.front; rw [hm] at this; exact ⟨this.jumpLast, this.pendJump⟩
+
+/-- **a jump restarts the front end at its target**: issuing the unconditional jump at the architectural pc either
+stalls (register interlock; the architectural state stays), or fails with the error of the unpipelined machine, or
+performs the sequential step — then the fetch unit is at the next ARCHITECTURAL pc and has been told to clean the
+decode bus, the decode unit is released, the BTB has learnt the target; `flush` is signalled in addition exactly
+when the prediction was wrong or missing. -/
+theorem mvp5_jump_restarts_fetch_at_target (app : App) (s s2 : Model.Mvp5.State) (a : Arch) (eu : ExecUnit)
+    (r : Runner) (out : EuOut) (hb : Back s.base a) (hsid : eu.storeID = s.base.eu.storeID)
+    (hpc : r.pc = a.pc) (hi : instrAt app r.pc = .ok r.instr) (hnf : NoFwd app)
+    (hfree : s.base.writeBus.canAdd = true) (hok : stepOk app a = true) (hj : Proofs.Mvp5.isJump r = true)
+    (h : Model.Mvp5.euIssue app s eu r = .ok (s2, out)) :
+    (out = .none ∧ Back s2.base a ∧ s2.duPending = s.duPending ∧ s2.btb = s.btb) ∨
+    (out = .err ∧ ∃ c, stepArch dc app a = .halt .err c) ∨
+    (∃ a' c, stepArch dc app a = .next a' c ∧ Back s2.base a' ∧ s2.base.fu.pc = a'.pc ∧
+      s2.toCleanPending = true ∧ s2.duPending = false ∧ s2.base.fu.complete = false ∧
+      Proofs.Mvp5.tailW s2 = [a'.pc] ∧ s2.btb = Model.Mvp5.btbAdd s.btb r.pc a'.pc ∧
+      (out = .none ∨ out = .flush a'.pc)) := by
+  obtain ⟨_, hcase⟩ := Proofs.Mvp5.euIssue_jump_sim hb hsid hpc hi hnf hfree hok hj h
+  rcases hcase with ⟨h1, h2, _, h4, _, _, _, _, h9, _⟩ | h | ⟨a', c, h1, h2, h3, h4, h5, h6, _, h8, h9⟩
+  · exact Or.inl ⟨h1, h2, h4, h9⟩
+  · exact Or.inr (Or.inl h)
+  · refine Or.inr (Or.inr ⟨a', c, h1, h2, h3.symm, h4, h5, h6, ?_, h9, h8⟩)
+    unfold Proofs.Mvp5.tailW Proofs.Mvp5.dEff
+    simp [h4, h5, h3]
+
+/-- `CPU.flush(pc)` of MVP-5: nothing of the wrong path is left — no bus content, no scoreboard entry, no
+instruction in the execute unit, the decode unit released; registers, memory and the BTB are untouched; fetching
+restarts at the target. -/
+theorem mvp5_redirect_flushes_everything_younger (s : Model.Mvp5.State) (pc : Word) :
+    (Model.Mvp5.flushAll s pc).base.decodeBus.isEmpty = true ∧ (Model.Mvp5.flushAll s pc).base.executeBus.isEmpty = true ∧
+    (Model.Mvp5.flushAll s pc).base.writeBus.isEmpty = true ∧ (Model.Mvp5.flushAll s pc).base.pwmi = [] ∧
+    (Model.Mvp5.flushAll s pc).base.ctx.PendingWriteRegisters.entries = [] ∧
+    (Model.Mvp5.flushAll s pc).base.fu.pc = pc ∧ (Model.Mvp5.flushAll s pc).base.fu.processing = false ∧
+    (Model.Mvp5.flushAll s pc).base.fu.complete = false ∧ (Model.Mvp5.flushAll s pc).base.eu.processing = false ∧
+    (Model.Mvp5.flushAll s pc).duPending = false ∧
+    (Model.Mvp5.flushAll s pc).base.ctx.Registers = s.base.ctx.Registers ∧
+    (Model.Mvp5.flushAll s pc).base.ctx.Memory = s.base.ctx.Memory ∧
+    (Model.Mvp5.flushAll s pc).base.mmu = s.base.mmu ∧ (Model.Mvp5.flushAll s pc).btb = s.btb :=
+  ⟨rfl, rfl, rfl, rfl, rfl, rfl, rfl, rfl, rfl, rfl, rfl, rfl, rfl, rfl⟩
+
+/-- after the drain and the flush the simulation relation of MVP-5 holds with the architectural pc at the target -/
+theorem mvp5_redirect_restores_relation (app : App) (s : Model.Mvp5.State) (a : Arch) (pc : Word) (hb : Back s.base a)
+    (he : s.base.writeBus.isEmpty = true) (hpc : a.pc = pc)
+    (hpe : s.base.eu.pendingMemoryRead = false) (hm : s.base.eu.memory = none) :
+    Back (Model.Mvp5.flushAll s pc).base a ∧ Proofs.Mvp5.NormalOk5 app (Model.Mvp5.flushAll s pc) a :=
+  Proofs.Mvp5.flushAll5_rel hb he hpc hpe hm
+
+/-- **end to end**: registers and memory after an MVP-5 run are those of the unpipelined machine. -/
+theorem mvp5_wrong_path_leaves_no_architectural_trace (app : App) (hnf : NoFwd app) (ctx : Model.Context)
+    (hc : CtxOk ctx) (fuel : Nat) (hok : seqOk app fuel ⟨ctx, 0#32⟩ = true) (hk : Halt)
+    (hh : (Model.Mvp5.run app ctx fuel).halt = some hk) (hnp : ∀ w, hk ≠ .panic w) :
+    ∃ n, (runMvp1 app ⟨ctx, 0#32⟩ n).halt = some hk ∧
+      (hk ≠ .err →
+        (Model.Mvp5.run app ctx fuel).final.base.ctx.Registers = (runMvp1 app ⟨ctx, 0#32⟩ n).final.ctx.Registers ∧
+        (Model.Mvp5.run app ctx fuel).final.base.ctx.Memory = (runMvp1 app ⟨ctx, 0#32⟩ n).final.ctx.Memory) :=
+  Proofs.Mvp5.mvp5_refines_mvp1 app hnf ctx hc fuel hok hk hh hnp
+
+/-! non-vacuity: a jump executed twice (BTB miss, then BTB hit) whose shadow holds a register write, a store and a
+division by zero; a call and a return through `jalr` -/
+
+/-- `li x5,0 ; li x9,2 ; L: j A ; li x6,99 ; sw x6,0(x0) ; div x8,x6,x0 ; A: addi x5,x5,1 ; bne x5,x9,L ;
+jal x1,F ; li x7,1 ; ret ; F: jalr x0,x1,0` -/
+def exApp5 : App :=
+  { instrs := [.li_ { rd := 5, imm := 0#32 }, .li_ { rd := 9, imm := 2#32 }, .j_ { label := "A" },
+               .li_ { rd := 6, imm := 99#32 }, .sw_ { rs := 6, rd := 0, offset := 0#32 }, .div_ { rd := 8, rs1 := 6, rs2 := 0 },
+               .addi_ { rd := 5, rs := 5, imm := 1#32 }, .bne_ { rs1 := 5, rs2 := 9, label := "L" },
+               .jal_ { rd := 1, label := "F" }, .li_ { rd := 7, imm := 1#32 }, .ret_ {},
+               .jalr_ { rd := 0, rs := 1, imm := 0#32 }],
+    labels := ⟨[("L", 8#32), ("A", 24#32), ("F", 44#32)]⟩ }
+
+example : NoFwd exApp5 := by unfold NoFwd exApp5; decide
+set_option maxRecDepth 100000 in
+example : seqOk exApp5 6000 ⟨exCtx, 0#32⟩ = true := by decide
+set_option maxRecDepth 100000 in
+example : (Model.Mvp5.run exApp5 exCtx 6000).halt = some .ret ∧
+    GoMap.get1 (Model.Mvp5.run exApp5 exCtx 6000).final.base.ctx.Registers 6 = 0#32 ∧
+    GoMap.get1 (Model.Mvp5.run exApp5 exCtx 6000).final.base.ctx.Registers 8 = 0#32 ∧
+    GoMap.get1 (Model.Mvp5.run exApp5 exCtx 6000).final.base.ctx.Registers 5 = 2#32 ∧
+    GoMap.get1 (Model.Mvp5.run exApp5 exCtx 6000).final.base.ctx.Registers 7 = 1#32 ∧
+    (Model.Mvp5.run exApp5 exCtx 6000).final.base.ctx.Memory = List.replicate 64 0#8 ∧
+    (Model.Mvp5.run exApp5 exCtx 6000).final.btb = [(8#32, 24#32), (32#32, 44#32), (44#32, 36#32)] := by decide
+/-- the relation the per-tick theorems assume holds in the initial state of every run -/
+example : ∃ s0, Model.Mvp5.init exCtx = .ok s0 ∧ Proofs.Mvp5.Rel5 exApp5 s0 ⟨exCtx, 0#32⟩ := by
+  obtain ⟨s0, h1, h2, _⟩ := Proofs.Mvp5.init5_rel exApp5 exCtx
+    ⟨rfl, rfl, fun r => by simp [exCtx, GoMap.get1, GoMap.get, GoMap.find?]⟩
+  exact ⟨s0, h1, h2⟩
 
 end Props.C03
